@@ -107,7 +107,12 @@ def run(chk: common.Check):
     worst = 0.0
     for t, a, v in triples:
         try:
-            got = va.rotate_vector_around_an_axis(t, va.Vector(*a), va.Vector(*v))
+            ax_obj, v_obj = va.Vector(*a), va.Vector(*v)
+            got = va.rotate_vector_around_an_axis(t, ax_obj, v_obj)
+            if (ax_obj.x, ax_obj.y, ax_obj.z) != tuple(a) or (v_obj.x, v_obj.y, v_obj.z) != tuple(v):
+                sig = "arguments-modified"
+                found.setdefault(sig, (sig, f"rotate({t!r}, axis={a}, v={v}) changed its arguments: axis is now {(ax_obj.x, ax_obj.y, ax_obj.z)}, vector {(v_obj.x, v_obj.y, v_obj.z)} "
+                                            "(a second rotation about the same axis object would use the wrong axis)", {"theta": t, "axis": a, "vec": v}))
         except Exception as ex:   # noqa: BLE001
             sig = f"exception:{type(ex).__name__}"
             found.setdefault(sig, (sig, f"rotate({t!r}, axis={a}, v={v}) raises {type(ex).__name__}: {ex}", {"theta": t, "axis": a, "vec": v}))
